@@ -28,7 +28,7 @@ def V(pid, sig, msg, step=None):
 
 STRAY_KINDS = ["stale", "stale", "stale", "stale_any", "stale_shape", "stale_shape", "badtag", "badtag", "unknown_svc",
                "not_awaited", "not_awaited", "not_awaited", "not_awaited", "case_svc", "future", "svc_near", "svc_near"]
-BAD_TAGS = ["%(id)x", "%(id)x-%(ser)x", "%(id)x_%(ser)xz", "%(id)x_%(ser)x_", "g%(id)x_%(ser)x", "%(id)x_", "_%(ser)x",
+BAD_TAGS = ["_%(ser)x", "%(id)x_", "%(id)x", "%(id)x-%(ser)x", "%(id)x_%(ser)xz", "%(id)x_%(ser)x_", "g%(id)x_%(ser)x", "%(id)x_", "_%(ser)x",
             "%(id)x_%(ser)x %(ser)x", "%(id)x__%(ser)x", "0x_%(ser)x", "%(id)x_-"]
 
 
